@@ -13,7 +13,8 @@ QUICK_SHARDS = 4
 RULE = (
     "Hypothesis value trees over the kitchen-sink corpus (15 scalar kinds, enums incl. negative/unlisted numbers, "
     "nested/recursive messages, repeated/packed, maps over every key kind, several oneof groups, proto3 optional, "
-    "wrappers, Timestamp/Duration) x construction route {kwargs, setattr}. Oracle: m2=Cls().parse(bytes(m)): "
+    "wrappers, Timestamp/Duration) x construction route {kwargs, setattr}; plus grammar-generated schemas (vf/schema.py, "
+    "compiled by the current plugin) with PRNG-drawn values (seed drawn by Hypothesis). Oracle: m2=Cls().parse(bytes(m)): "
     "public-observer snapshot(m2)==snapshot(m) (values, selected oneof member, None-ness, nested presence), m2==m, "
     "bytes(m2)==bytes(m); also via FromString. Non-trivial = >=1 field set and a named corner (negative/unlisted "
     "enum, 64-bit boundary int, non-finite float, empty value in presence-tracked position, present-but-empty "
@@ -81,6 +82,78 @@ def targets(ctx):
         case["route"] = draw(st.sampled_from(["kwargs", "kwargs", "setattr"]))
         return case
 
+    # ---- programs: grammar-generated schemas compiled by the current plugin, PRNG-drawn values (seed from Hypothesis)
+    def grammar_ev(case):
+        import random
+
+        from .. import gen
+        from ..schema import render
+        from ..schema_info import Schema
+        from .c18 import simple_tree
+
+        files = render(case["ast"])
+        comp = gen.compile_files(files, tag="c01g_")
+        try:
+            if comp.protoc_rejected:
+                return Eval(discard="protoc rejects")
+            if comp.rc != 0:
+                return Eval(discard="plugin failed (reported by C03)")
+            gen.import_all(comp)
+            if comp.import_errors:
+                return Eval(discard="generated package not importable (reported by C03)")
+            gschema = Schema(comp.fds)
+            gadapter = BPAdapter(gschema)
+            classes = {}
+            for pkg, mod in comp.modules.items():
+                for cls in gen.classes_of(mod)[0]:
+                    mk = gen.marker_of_message(cls)
+                    if mk:
+                        classes[mk] = cls
+            fulls = {fi.number: full for full, mi in gschema.messages.items() for fi in mi.fields if fi.number > 20000 and fi.name.startswith("mk")}
+            fails, n, nt, seen = [], 0, 0, set()
+            for vs in case["vseeds"]:
+                rng = random.Random(vs)
+                marks = sorted(m for m in fulls if m in classes)
+                if not marks:
+                    break
+                for _ in range(8):
+                    mk = marks[rng.randrange(len(marks))]
+                    mi = gschema.msg(fulls[mk])
+                    tree = simple_tree(gschema, mi.full_name, rng)
+                    n += 1
+                    nt += 1 if tree else 0
+                    try:
+                        cls = classes[mk]
+                        m = guard("build", gadapter.build, cls, mi, tree)
+                        b = guard("bytes", bytes, m)
+                        m2 = guard("parse", cls().parse, b)
+                        a = norm(gschema, mi, guard("snapshot_m", snap_bp, gschema, mi, m))
+                        z = norm(gschema, mi, guard("snapshot_m2", snap_bp, gschema, mi, m2))
+                        found = []
+                        if a != z:
+                            found.append(("roundtrip_snapshot", f"before={a!r:.200} after={z!r:.200}"))
+                        if guard("eq", lambda: m2 == m) is not True:
+                            found.append(("roundtrip_eq", "m2 != m"))
+                        if guard("bytes2", bytes, m2) != b:
+                            found.append(("reencode_bytes", "second encoding differs"))
+                        if guard("len", len, m) != len(b):
+                            found.append(("len_vs_bytes", f"len={len(m)} bytes={len(b)}"))
+                    except Guarded as g:
+                        found = [(f"raises_{g.where}_{type(g.exc).__name__}", str(g))]
+                    for cl, d in found:
+                        kinds = ",".join(sorted({fi.kind for fi in mi.fields if fi.name in tree}))[:120]
+                        sig = f"grammar|{cl}|{kinds}"
+                        if sig not in seen:
+                            seen.add(sig)
+                            fails.append(Failure(cl, sig, f"{mi.full_name} tree={tree!r:.300} :: {d}\n" + "\n".join(f"# {k}\n{t}" for k, t in files.items())[:2000]))
+            return Eval(fails, weight=max(1, n), nontrivial_count=nt, labels=["grammar_schema"])
+        finally:
+            comp.cleanup()
+
+    from ..schema import schema_ast
+
+    gstrat = st.tuples(schema_ast(max_packages=2, services=False), st.lists(st.integers(0, 2**20), min_size=4, max_size=4)).map(lambda t: {"ast": t[0], "vseeds": t[1]})
+
     # fixed probe of a known finding that the corpus / grammar exclude by construction
     def probe_cases():
         yield {"probe": "map_of_wrapper"}
@@ -111,4 +184,5 @@ def targets(ctx):
     return [
         Target("corpus_values", make_eval(c), strategy=strat(), quick=700, thorough=8000, time_quick=70),
         Target("known_finding_probes", probe_ev, cases=probe_cases, exhaustive=True, shard_cases=False),
+        Target("grammar_schema_values", grammar_ev, strategy=gstrat, quick=3, thorough=40, time_quick=60, time_thorough=900, pin_budget=10, pin_sigs=1),
     ]
